@@ -452,16 +452,16 @@ def impl_life(case):
     obs = []
     import weakref
     nplog = []          # (address, nbytes) of NumPy-owned buffers whose owner has died
-    tracked = set()
+    tracked = []
 
     def track(arr):
         """log the death of the ndarray that owns arr's memory (NumPy frees the buffer then)"""
         owner = arr
         while isinstance(owner.base, np.ndarray):
             owner = owner.base
-        if owner.base is not None or id(owner) in tracked or not owner.flags["OWNDATA"]:
+        if owner.base is not None or not owner.flags["OWNDATA"] or any(t() is owner for t in tracked):
             return
-        tracked.add(id(owner))
+        tracked.append(weakref.ref(owner))
         weakref.finalize(owner, nplog.append, (int(owner.__array_interface__["data"][0]), int(owner.nbytes)))
 
     def track_held_by(storage):
@@ -808,8 +808,9 @@ def life_cases(tier, rng):
     for name, shape, prog, deletable in life_scenarios():
         scr = schedules(prog, deletable)
         for dt in dts:
-            if dt == "float16" and any(i[0] == "op" for i in prog) and any(i[0] in ("sps",) for i in prog):
-                continue
+            if dt == "float16" and any(i[0] in ("sps", "to_scipy") or (i[0] == "op" and i[4] in ("csr", "csc"))
+                                       for i in prog):
+                continue            # scipy.sparse has no float16
             sel = scr
             lim = (10 if dt != "float64" else 22) if quick else 10 ** 9
             if len(sel) > lim:
@@ -998,13 +999,7 @@ def campaign(build, tier, seed, report, budget=1):
         if r.get("copy_independent") is False:
             nviol(i, "Array.copy() shares memory with its source")
         if r.get("api_ok") is False:
-            cl = None
-            if "tonumpy" in r and sorted(r["tonumpy"]["order"]) == list(range(len(r["tonumpy"]["order"]))):
-                o = r["tonumpy"]["order"]
-                inv = [o.index(k) for k in range(len(o))]
-                if inv != o:
-                    cl = "to_numpy_noninvolutive_order"
-            nviol(i, "result read back through to_numpy/to_scipy differs from NumPy", clause=cl)
+            nviol(i, "result read back through to_numpy/to_scipy differs from NumPy")
         if r.get("dtype_ok") is False:
             nviol(i, "result dtype differs from the operands' dtype")
         # inputs: the constituent arrays must denote the input
@@ -1045,7 +1040,7 @@ def campaign(build, tier, seed, report, budget=1):
               kind="representation", code=code)
     for k, code in build.judge("c20_tonumpy", IMPORTS, "tonumpy_case", "judge_tonumpy", tn_lits):
         nviol(tn_ref[k], f"to_numpy (judge_tonumpy code {code})", kind="representation" if code == 1 else "value",
-              clause="to_numpy_noninvolutive_order" if code == 3 else None, code=code)
+              code=code)
 
     # ------------------------------------------------------------ 3. lifetimes
     lcases = life_cases(tier, rng)
@@ -1069,18 +1064,23 @@ def campaign(build, tier, seed, report, budget=1):
         i = judged[k]
         bad.add(i)
         kind, clause, what = LCODE[code]
+        if code == 3 and not dt_class(lcases[i]["dtype"]):
+            # the model itself predicts the dangling result for a PLAIN dtype: a required edge is missing
+            # from the extracted site table (sites_ok no longer proves)
+            clause, what = "required_edge_missing", "a held result points into freed memory (plain dtype; the " \
+                                                    "extracted site table lacks a required edge)"
         viol.append(dict(property="C20", op="lifetime", kind=kind, clause=clause, what=what, case=lcases[i],
                          impl=lres[i], code=code, replay_py=_replay_line("impl_life", lcases[i])))
     for i, (c, r) in enumerate(zip(lcases, lres, strict=True)):
         tag(f"life/{c['scenario']}/{'wrapped' if dt_class(c['dtype']) else 'plain'}")
         if "obs" not in r:
             viol.append(dict(property="C20", op="lifetime", kind="value",
-                             clause="wrapped_dtype_view" if i in predicted else None,
+                             clause="wrapped_dtype_view" if i in predicted and dt_class(c["dtype"]) else None,
                              what="script crashed / hung / raised: " + json.dumps(r)[:300], case=c, impl=r,
                              replay_py=_replay_line("impl_life", c)))
         elif i not in bad and any(o[2] is False for o in r["obs"]):
             viol.append(dict(property="C20", op="lifetime", kind="value",
-                             clause="wrapped_dtype_view" if i in predicted else None,
+                             clause="wrapped_dtype_view" if i in predicted and dt_class(c["dtype"]) else None,
                              what="a held object's value changed after deleting other objects", case=c, impl=r,
                              replay_py=_replay_line("impl_life", c)))
     tag("life/model_predicts_dangling", len(predicted))
@@ -1113,7 +1113,8 @@ def campaign(build, tier, seed, report, budget=1):
         json.dump(viol, open(os.environ["VERIF_C20_DUMP"], "w"), default=str)
     cov["unproved_statements"] = [
         "values computed inside JIT-compiled MLIR modules (oracle; differential only)",
-        "to_numpy order inversion is proved for ranks 1..4 by enumeration of the permutations (bound in the statement)",
+        "to_numpy order inversion (to_numpy_order_correct) is proved for ranks 1..4 by enumeration of the 33 "
+        "permutations (bound in the statement), not for arbitrary rank",
         "_determine_format is tied to the source by correspondence, not by translation",
     ]
     return viol
